@@ -878,7 +878,24 @@ func TestRegressions(t *testing.T) {
 				Deps: []Dep{{InWire: 0, InInst: 1, OutWire: 2, OutInst: 0}, {InWire: 1, InInst: 2, OutWire: 2, OutInst: 1}},
 				Vals: [][]string{{"2", "", "3", "4"}, {"5", "6", "", "7"}, nil}}},
 	}
+	// many instances with a Series dependency: the solving hint splits chunks of more than 1024
+	// instances into several worker tasks, which all have to see the dependency bookkeeping of
+	// their chunk (2048 instances, x[1] <- z[0])
+	{
+		n := 2048
+		xs, ys := make([]string, n), make([]string, n)
+		for i := range xs {
+			xs[i], ys[i] = fmt.Sprint(3+i%97), fmt.Sprint(5+(7*i)%89)
+		}
+		xs[1] = ""
+		cases = append(cases, Case{Curve: "bn254", HashA: hashMimc, ChalA: "commit", BuilderB: prog.R1CS, ChalB: "commit",
+			Forgeries: []Forgery{{Kind: "out-one", Idx: 1500, Delta: "1"}},
+			Topo: Topo{LogN: 11, Wires: []Wire{{}, {}, {Gate: "mul", In: []int{0, 1}}},
+				Deps: []Dep{{InWire: 0, InInst: 1, OutWire: 2, OutInst: 0}},
+				Vals: [][]string{xs, ys, nil}}})
+	}
 	for _, c := range cases {
+		rec.Begin("gkr", c)
 		o, harness := run(c)
 		if harness != "" {
 			t.Fatalf("HARNESS ERROR (not a property violation): %s", harness)
